@@ -271,25 +271,35 @@ static void dump_instance(const char* tag, int idx, instance_t& p)
     printf("}\n");
 }
 
+// a name as one blank-free word: white space inside a name (which a reader must never leave there) is written as an escape, so that the line stays one record
+static std::string nmq(const std::string& n)
+{
+    std::string o;
+    for (char c : n) {
+        if (c == ' ') o += "\\s"; else if (c == '\n') o += "\\n"; else if (c == '\t') o += "\\t"; else if (c == '\r') o += "\\r"; else o += c;
+    }
+    return o.empty() ? std::string("<empty>") : o;
+}
+
 static void dump_doc(Document& doc, bool with_builtins)
 {
     dump_decls("global", doc.get_globals(), !with_builtins);
     int ti = 0;
     for (auto& t : doc.get_templates()) {
-        printf("template %d name=%s params=%s isTA=%d instantiated=%d dynamic=%d init=%s nloc=%zu nbp=%zu nedge=%zu\n", ti, t.uid.get_name().c_str(),
-               frame_sig(t.parameters).c_str(), t.is_TA, t.is_instantiated, t.dynamic, t.init == symbol_t() ? "<none>" : t.init.get_name().c_str(),
+        printf("template %d name=%s params=%s isTA=%d instantiated=%d dynamic=%d init=%s nloc=%zu nbp=%zu nedge=%zu\n", ti, nmq(t.uid.get_name()).c_str(),
+               frame_sig(t.parameters).c_str(), t.is_TA, t.is_instantiated, t.dynamic, t.init == symbol_t() ? "<none>" : nmq(t.init.get_name()).c_str(),
                t.locations.size(), t.branchpoints.size(), t.edges.size());
         std::string pfx = "t" + std::to_string(ti);
         dump_decls(pfx.c_str(), t, false);
         for (auto& l : t.locations) {
             type_t ty = l.uid.get_type();
-            printf("%s loc nr=%d name=%s urgent=%d committed=%d inv=%s exprate=%s costrate=%s\n", pfx.c_str(), l.nr, l.uid.get_name().c_str(),
+            printf("%s loc nr=%d name=%s urgent=%d committed=%d inv=%s exprate=%s costrate=%s\n", pfx.c_str(), l.nr, nmq(l.uid.get_name()).c_str(),
                    ty.is(URGENT), ty.is(COMMITTED), expr_s(l.invariant).c_str(), expr_s(l.exp_rate).c_str(), expr_s(l.cost_rate).c_str());
         }
-        for (auto& b : t.branchpoints) printf("%s bp nr=%d name=%s\n", pfx.c_str(), b.bpNr, b.uid.get_name().c_str());
+        for (auto& b : t.branchpoints) printf("%s bp nr=%d name=%s\n", pfx.c_str(), b.bpNr, nmq(b.uid.get_name()).c_str());
         for (auto& e : t.edges) {
             printf("%s edge nr=%d src=%s dst=%s control=%d act=%s select=%s guard=%s sync=%s assign=%s prob=%s\n", pfx.c_str(), e.nr,
-                   end_name(e.src, e.srcb).c_str(), end_name(e.dst, e.dstb).c_str(), e.control, e.actname.c_str(), frame_sig(e.select).c_str(),
+                   nmq(end_name(e.src, e.srcb)).c_str(), nmq(end_name(e.dst, e.dstb)).c_str(), e.control, e.actname.c_str(), frame_sig(e.select).c_str(),
                    expr_s(e.guard).c_str(), expr_s(e.sync).c_str(), expr_s(e.assign).c_str(), expr_s(e.prob).c_str());
         }
         ++ti;
